@@ -8,6 +8,7 @@ import (
 	"bytes"
 	"context"
 	"crypto/sha256"
+	"errors"
 	"fmt"
 	"io"
 	"runtime"
@@ -255,7 +256,7 @@ func firstKinds(ev []Event) string {
 
 func genWorkload(t *rapid.T) Workload {
 	cfg := hist.Config{MaxOps: 90, ValidRepos: 2, Uploads: true, Mismatch: true, BadManifests: false, Retype: true,
-		Deletes: true, Lists: true, UnknownResumeID: true, MaxSmall: 12, RepoPool: []string{"foo", "bar"}}
+		Deletes: true, Lists: true, UnknownResumeID: true, MaxSmall: 12, RepoPool: []string{"foo", "bar"}, Attach: true}
 	h := hist.Gen(cfg)(t)
 	// shrink the key space: fewer blobs / manifests / tags are shared more
 	wl := Workload{Immutable: h.Immutable, U: h.U}
@@ -269,6 +270,9 @@ func genWorkload(t *rapid.T) Workload {
 			op.T = op.T % 2
 		}
 		op.W = th*10 + op.W
+		if op.K == "upAttach" {
+			op.O1 += int64(th * 10)
+		}
 		if op.K == "upResume" && op.Mode == 3 {
 			op.S = rapid.SampledFrom([]string{"shared-1", "shared-2"}).Draw(t, "sharedID")
 		}
@@ -456,6 +460,82 @@ func runDirected1(d Directed, v *vt.V) {
 				return
 			}
 		}
+	case "stale-write-vs-status", "good-write-vs-wrong-offset":
+		// each handle on an upload session checks the offset it was opened at: what another
+		// handle on the same session is opened at must not matter
+		mem := ocimem.New()
+		x := bytes.Repeat([]byte("x"), d.Size)
+		y := []byte("YYYY")
+		for i := 0; i < d.Iters; i++ {
+			repo := "foo"
+			w, err := mem.PushBlobChunked(ctx, repo, 0)
+			if err != nil {
+				v.Failf("harness", "%v", err)
+				return
+			}
+			id := w.ID()
+			if d.Family == "stale-write-vs-status" {
+				w.Write(x)
+			}
+			var wg sync.WaitGroup
+			var aErr, bErr error
+			var stop atomic.Bool
+			wg.Add(2)
+			go func() {
+				defer wg.Done()
+				defer stop.Store(true)
+				// stale: offset 0 on a session that holds len(x) bytes; good: offset 0 on an empty session
+				w1, err := mem.PushBlobChunkedResume(ctx, repo, id, 0, 0)
+				if err != nil {
+					aErr = fmt.Errorf("resume: %w", err)
+					return
+				}
+				runtime.Gosched()
+				if d.Family == "stale-write-vs-status" {
+					_, aErr = w1.Write(y)
+				} else {
+					_, aErr = w1.Write(x)
+				}
+			}()
+			go func() {
+				defer wg.Done()
+				for k := 0; k < 50 && !stop.Load(); k++ {
+					if d.Family == "stale-write-vs-status" {
+						// what the server's upload-status request does
+						if w2, err := mem.PushBlobChunkedResume(ctx, repo, id, -1, 0); err == nil {
+							w2.Size()
+						}
+					} else {
+						// a writer that names an offset the session never has
+						if w2, err := mem.PushBlobChunkedResume(ctx, repo, id, int64(len(x))+3, 0); err == nil {
+							if _, err := w2.Write(y); err == nil {
+								bErr = fmt.Errorf("a write at offset %d was accepted", len(x)+3)
+							}
+						}
+					}
+					runtime.Gosched()
+				}
+			}()
+			wg.Wait()
+			w3, err := mem.PushBlobChunkedResume(ctx, repo, id, -1, 0)
+			if err != nil {
+				v.Failf("harness", "%v", err)
+				return
+			}
+			size := w3.Size()
+			if d.Family == "stale-write-vs-status" {
+				if aErr == nil || !errors.Is(aErr, ociregistry.ErrRangeInvalid) || size != int64(len(x)) {
+					v.Failf("stale-offset-write-accepted", "%s, iteration %d: a handle opened at offset 0 on a session holding %d bytes wrote with result %v while another handle was opened at offset -1; the session now holds %d bytes (want a range-invalid error and %d bytes)", d.Family, i, len(x), aErr, size, len(x))
+					return
+				}
+			} else {
+				if aErr != nil || bErr != nil || size != int64(len(x)) {
+					v.Failf("right-offset-write-refused", "%s, iteration %d: a handle opened at offset 0 on an empty session wrote %d bytes with result %v while other handles were opened at offset %d (their writes: %v); the session now holds %d bytes", d.Family, i, len(x), aErr, len(x)+3, bErr, size)
+					return
+				}
+			}
+			w3.Cancel()
+		}
 	default:
 		v.Failf("harness", "unknown family")
 		return
@@ -470,7 +550,7 @@ func init() {
 	propDirected = &vt.Prop[Directed]{
 		ID:   "C08",
 		Name: "DirectedRaces",
-		Rule: "directed workload families aimed at the registry's two-step operations, each a loop of racing goroutines under -race: tag-flip (a tag moved back and forth between two manifests, the old one deleted each time, while 4 readers GetTag: never missing, never foreign bytes), commit-vs-write / resume-vs-write (one goroutine commits digest(X) while another writes to the same session: a successful commit stores exactly X with the right size, a failed one stores nothing), commit-vs-cancel / commit-vs-wrong-commit / commit-vs-write-commit (every commit that reports success leaves exactly its content retrievable under its digest; nothing is ever stored under the empty digest); distinct = (family, iterations, size)",
+		Rule: "directed workload families aimed at the registry's two-step operations, each a loop of racing goroutines under -race: tag-flip (a tag moved back and forth between two manifests, the old one deleted each time, while 4 readers GetTag: never missing, never foreign bytes), commit-vs-write / resume-vs-write (one goroutine commits digest(X) while another writes to the same session: a successful commit stores exactly X with the right size, a failed one stores nothing), commit-vs-cancel / commit-vs-wrong-commit / commit-vs-write-commit (every commit that reports success leaves exactly its content retrievable under its digest; nothing is ever stored under the empty digest), stale-write-vs-status / good-write-vs-wrong-offset (a handle opened at a stale offset is refused, one opened at the right offset is accepted, whatever offsets other handles on the same session are opened at meanwhile); distinct = (family, iterations, size)",
 		Run:  runDirected,
 	}
 }
@@ -484,7 +564,7 @@ func TestPropDirected(t *testing.T) {
 	vt.Enumerate(t, propDirected, false, func(yield func(Directed) bool) {
 		k := 0
 		for rep := 0; rep < 2; rep++ {
-			for _, f := range []string{"tag-flip", "commit-vs-write", "commit-vs-cancel", "resume-vs-write", "commit-vs-wrong-commit", "commit-vs-write-commit"} {
+			for _, f := range []string{"tag-flip", "commit-vs-write", "commit-vs-cancel", "resume-vs-write", "commit-vs-wrong-commit", "commit-vs-write-commit", "stale-write-vs-status", "good-write-vs-wrong-offset"} {
 				for _, size := range []int{4, 4096, 1 << 20} {
 					if f == "tag-flip" && size != 4 {
 						continue
